@@ -12,84 +12,174 @@ Lean build (a broken obligation, DESIGN 4.1) instead of silently drifting.
 import ast
 
 
-def _func(tree, cls, name, where, api):
-    for node in ast.walk(tree):
-        if isinstance(node, ast.ClassDef) and node.name == cls:
-            for f in node.body:
-                if isinstance(f, ast.FunctionDef) and f.name == name:
-                    return f
-    raise api.P.Untranslatable("%s: %s.%s not found" % (where, cls, name))
+VALIDATE = """
+def validate(self, V_selected):
+    if isinstance(V_selected, int):
+        V_selected = str(V_selected)
+    V_choices = V_selected.replace(CONST_rep_a, CONST_rep_b)
+    if self._question.supports_multiple_choices():
+        if not re.match(CONST_regex, V_choices):
+            raise ValueError(self._question.error_message.format(V_selected))
+        V_choices = V_choices.split(CONST_sep)
+    else:
+        V_choices = [V_selected]
+    V_multi = []
+    for V_value in V_choices:
+        V_results = []
+        for V_key, V_choice in enumerate(self._values):
+            if V_choice == V_value:
+                V_results.append(V_key)
+        if len(V_results) > CONST_amb:
+            raise ValueError(HOLE_ambiguous_message)
+        HOLE_LOOKUP
+        if V_result is False:
+            raise ValueError(self._question.error_message.format(V_value))
+        V_multi.append(V_result)
+    if self._question.supports_multiple_choices():
+        return V_multi
+    return V_multi[0]
+"""
 
+# the look-up of one answer: by value first and by index in the ValueError handler, or the other way round
+LOOKUP_VALUE_FIRST = """
+try:
+    V_result = self._values.index(V_value)
+    V_result = self._values[V_result]
+except ValueError:
+    try:
+        V_value = int(V_value)
+        if HOLE_range:
+            V_result = self._values[V_value]
+        else:
+            V_result = False
+    except ValueError:
+        V_result = False
+"""
+LOOKUP_INDEX_FIRST = """
+try:
+    V_value = int(V_value)
+    if HOLE_range:
+        V_result = self._values[V_value]
+    else:
+        V_result = False
+except ValueError:
+    try:
+        V_result = self._values.index(V_value)
+        V_result = self._values[V_result]
+    except ValueError:
+        V_result = False
+"""
 
-def _calls(node, attr):
-    return [c for c in ast.walk(node) if isinstance(c, ast.Call) and isinstance(c.func, ast.Attribute) and c.func.attr == attr]
-
-
-def _const_args(call):
-    return [a.value for a in call.args if isinstance(a, ast.Constant)]
+ATTEMPTS = """
+def _validate_attempts(self, V_interviewer, V_io):
+    V_error = None
+    V_attempts = self._attempts
+    while V_attempts is None or V_attempts:
+        if V_error is not None:
+            self._write_error(V_io, V_error)
+        READ_OUTSIDE
+        try:
+            TRY_BODY
+        except HOLE_caught as V_e:
+            V_error = V_e
+        if V_attempts is not None:
+            V_attempts -= 1
+    raise V_error
+"""
 
 
 def generate(api):
-    U = api.P.Untranslatable
-    # ---- choice_question.py
+    P = api.P
+    U = P.Untranslatable
+    # ---- choice_question.py: the whole of `validate` is matched; the facts are its holes
     tree, rel = api.parse("ui/components/choice_question.py")
-    v = _func(tree, "SelectChoiceValidator", "validate", rel, api)
-    m = [c for c in _calls(v, "match") if isinstance(c.func.value, ast.Name) and c.func.value.id == "re"]
-    if len(m) != 1 or not _const_args(m[0]):
+    P.plain_import(tree, "re", rel)
+    v = P.inline_literals(P.find_function(tree, "SelectChoiceValidator", "validate", rel, decorators=()), tree,
+                          "SelectChoiceValidator")
+    init = P.find_function(tree, "SelectChoiceValidator", "__init__", rel, decorators=())
+    P.Template("""
+        def __init__(self, V_question):
+            self._question = V_question
+            self._values = V_question.choices
+    """).match([init], rel, "SelectChoiceValidator.__init__")
+    cnode = P.find_class(tree, "SelectChoiceValidator", rel)
+    if len([n for n in ast.walk(cnode) if isinstance(n, ast.Attribute) and n.attr in ("_values", "_question")
+            and isinstance(n.ctx, (ast.Store, ast.Del))]) != 2:
+        raise U("%s: SelectChoiceValidator rebinds _values / _question" % rel)
+    b = None
+    for lookup, vf in ((LOOKUP_VALUE_FIRST, True), (LOOKUP_INDEX_FIRST, False)):
+        text = VALIDATE.replace("        HOLE_LOOKUP\n", "".join("        " + ln + "\n" for ln in lookup.strip().split("\n")))
+        t = P.Template(text)
+        b = t.try_match([v])
+        if b is not None:
+            value_first = vf
+            break
+        err = t
+    if b is None:
+        P.Template(VALIDATE.replace("        HOLE_LOOKUP\n", "".join(
+            "        " + ln + "\n" for ln in LOOKUP_VALUE_FIRST.strip().split("\n")))).match([v], rel, "SelectChoiceValidator.validate")
+    regex = b["regex"].value
+    if not isinstance(regex, str):
         raise U("%s: expected exactly one re.match(<literal>, …) in validate" % rel)
-    regex = _const_args(m[0])[0]
-    rep = _calls(v, "replace")
-    if len(rep) != 1 or _const_args(rep[0]) != [" ", ""]:
+    if [b["rep_a"].value, b["rep_b"].value] != [" ", ""]:
         raise U('%s: expected selected.replace(" ", "")' % rel)
-    sp = _calls(v, "split")
-    if len(sp) != 1 or _const_args(sp[0]) != [","]:
+    if b["sep"].value != ",":
         raise U('%s: expected selected_choices.split(",")' % rel)
-    rng = [c for c in ast.walk(v) if isinstance(c, ast.Compare) and len(c.ops) == 2]
-    if len(rng) != 1:
-        raise U("%s: expected one chained comparison (the index range test)" % rel)
-    c = rng[0]
-    lo = c.left.value if isinstance(c.left, ast.Constant) else None
+    c = b["range"]
+    value_var = b["V:value"]
+    if not (isinstance(c, ast.Compare) and len(c.ops) == 2 and isinstance(c.left, ast.Constant)
+            and isinstance(c.left.value, int) and not isinstance(c.left.value, bool)
+            and ast.unparse(c.comparators[0]) == value_var and ast.unparse(c.comparators[1]) == "len(self._values)"):
+        raise U("%s:%d: expected one chained comparison <int> <op> %s <op> len(self._values) (the index range test)"
+                % (rel, c.lineno, value_var))
+    lo = c.left.value
     ops = [type(o).__name__ for o in c.ops]
-    amb = [c for c in ast.walk(v) if isinstance(c, ast.Compare) and len(c.ops) == 1 and isinstance(c.ops[0], ast.Gt)
-           and ast.unparse(c.left) == "len(results)" and isinstance(c.comparators[0], ast.Constant)]
-    if len(amb) != 1:
+    amb_n = b["amb"].value
+    if not isinstance(amb_n, int) or isinstance(amb_n, bool) or amb_n < 0:
         raise U("%s: expected the ambiguity test len(results) > <n>" % rel)
-    amb_n = amb[0].comparators[0].value
-    # value first, index second: `.index(value)` in a try whose ValueError handler calls int(value)
-    tries = [t for t in ast.walk(v) if isinstance(t, ast.Try)]
-    value_first = False
-    for t in tries:
-        if _calls(ast.Module(body=t.body, type_ignores=[]), "index"):
-            for h in t.handlers:
-                if any(isinstance(x, ast.Call) and isinstance(x.func, ast.Name) and x.func.id == "int" for x in ast.walk(h)):
-                    value_first = True
-    # ---- question.py
+    # ---- question.py: the retry loop, read either before the `try` (D22 repair) or as part of it
     tree, rel = api.parse("ui/components/question.py")
-    va = _func(tree, "Question", "_validate_attempts", rel, api)
-    loops = [n for n in va.body if isinstance(n, ast.While)]
-    if len(loops) != 1:
-        raise U("%s: expected one while loop in _validate_attempts" % rel)
-    loop = loops[0]
-    tries = [t for t in loop.body if isinstance(t, ast.Try)]
-    if len(tries) != 1:
-        raise U("%s: expected one try statement in the retry loop" % rel)
-    t = tries[0]
-
-    def calls_interviewer(nodes):
-        return any(isinstance(x, ast.Call) and isinstance(x.func, ast.Name) and x.func.id == "interviewer"
-                   for n in nodes for x in ast.walk(n))
-    read_inside_try = calls_interviewer(t.body)
-    read_in_loop = calls_interviewer(loop.body)
-    caught = [ast.unparse(h.type) if h.type is not None else "BaseException" for h in t.handlers]
+    va = P.find_function(tree, "Question", "_validate_attempts", rel, decorators=())
+    shapes = [
+        (False, True, "        V_value = V_interviewer()\n", "            return self._validator(V_value)\n"),
+        (True, True, "", "            return self._validator(V_interviewer())\n"),
+        (True, True, "", "            V_value = V_interviewer()\n            return self._validator(V_value)\n"),
+    ]
+    bq = None
+    for inside, in_loop, outside_text, try_text in shapes:
+        t = P.Template(ATTEMPTS.replace("        READ_OUTSIDE\n", outside_text).replace("            TRY_BODY\n", try_text))
+        bq = t.try_match([va])
+        if bq is not None:
+            read_inside_try, read_in_loop = inside, in_loop
+            break
+    if bq is None:
+        inside, in_loop, outside_text, try_text = shapes[0]
+        P.Template(ATTEMPTS.replace("        READ_OUTSIDE\n", outside_text).replace("            TRY_BODY\n", try_text)).match(
+            [va], rel, "Question._validate_attempts")
+    h = bq["caught"]
+    if not isinstance(h, (ast.Name, ast.Tuple)) or (isinstance(h, ast.Tuple) and not all(isinstance(e, ast.Name) for e in h.elts)):
+        raise U("%s:%d: the retry loop catches something that is not a class name" % (rel, h.lineno))
+    caught = [ast.unparse(h)]
     # ---- confirmation_question.py
     tree, rel = api.parse("ui/components/confirmation_question.py")
-    init = _func(tree, "ConfirmationQuestion", "__init__", rel, api)
+    init = P.find_function(tree, "ConfirmationQuestion", "__init__", rel, decorators=())
     names = [a.arg for a in init.args.args]
-    if "true_answer_regex" not in names:
+    if "true_answer_regex" not in names or init.args.vararg or init.args.kwarg or init.args.kwonlyargs:
         raise U("%s: ConfirmationQuestion.__init__ has no true_answer_regex" % rel)
-    dflt = init.args.defaults[names.index("true_answer_regex") - (len(names) - len(init.args.defaults))]
-    if not isinstance(dflt, ast.Constant):
+    k = names.index("true_answer_regex") - (len(names) - len(init.args.defaults))
+    if k < 0:
+        raise U("%s: true_answer_regex has no default" % rel)
+    dflt = init.args.defaults[k]
+    if not (isinstance(dflt, ast.Constant) and isinstance(dflt.value, str)):
         raise U("%s: the default of true_answer_regex is not a literal" % rel)
+    # the parameter reaches `self._true_answer_regex` unchanged and nothing else writes that attribute
+    uses = [st for st in P.strip_doc(init.body) if P.mentions(st, names=("true_answer_regex",), attrs=("_true_answer_regex",))]
+    if [ast.unparse(st) for st in uses] != ["self._true_answer_regex = true_answer_regex"] or P.exits(init.body):
+        raise U("%s:%d: ConfirmationQuestion.__init__ does not simply store true_answer_regex" % (rel, init.lineno))
+    cq = P.find_class(tree, "ConfirmationQuestion", rel)
+    if len([n for n in ast.walk(cq) if isinstance(n, ast.Attribute) and n.attr == "_true_answer_regex"
+            and isinstance(n.ctx, (ast.Store, ast.Del))]) != 1:
+        raise U("%s: ConfirmationQuestion._true_answer_regex is written in more than one place" % rel)
     S = api.lean_str
     B = lambda b: "true" if b else "false"  # noqa: E731
     lines = [api.HEADER.rstrip("\n"),
@@ -98,10 +188,10 @@ def generate(api):
              "/-- `re.match(<this>, selected_choices)` in SelectChoiceValidator.validate -/",
              "def multiSelectRegex : String := %s" % S(regex),
              "/-- the index range test `<lo> <op1> value <op2> len(values)` -/",
-             "def rangeLow : Int := %d" % (lo if isinstance(lo, int) else -999),
+             "def rangeLow : Int := %d" % lo,
              "def rangeOps : List String := [%s]" % ", ".join(S(o) for o in ops),
              "/-- more than this many equal choices are ambiguous -/",
-             "def ambiguousAbove : Nat := %d" % (amb_n if isinstance(amb_n, int) and amb_n >= 0 else 999),
+             "def ambiguousAbove : Nat := %d" % amb_n,
              "/-- `values.index(value)` is tried first, `int(value)` in its ValueError handler -/",
              "def valueBeforeIndex : Bool := %s" % B(value_first),
              "",
